@@ -608,3 +608,90 @@ def replay_witness(unit_name, case, ob):
                 shutil.rmtree(tmp, ignore_errors=True)
         return {"reproduced": False, "tried": len(_candidates(w))}
     return {"reproduced": False, "note": "no concrete replay harness for this obligation"}
+
+
+# ---------------------------------------------------------------------------------------------------------
+# bounded stand-in (labelled bounded, never counted as proved): the same rule evaluated at run time on the real
+# functions over an enumerated input space.  It is the safety net for the case that a restructured implementation
+# takes the deductive part out of reach (verdict UNDECIDED).
+# ---------------------------------------------------------------------------------------------------------
+
+def bounded(opts):
+    import importlib
+    import itertools
+    import shutil
+    import tempfile
+    import time
+    import numpy as np
+    from types import SimpleNamespace
+    from yaw.binning import Binning
+    red = importlib.import_module("yaw.redshifts")
+    trees = importlib.import_module("yaw.catalog.trees")
+    patchmod = importlib.import_module("yaw.catalog.patch")
+    from yaw.datachunk import DataChunk
+    t0 = time.time()
+    e = np.array([0.0, 0.125, 0.25, 0.5])
+    grid = [-0.1, 0.0, 0.06, 0.125, 0.2, 0.25, 0.3, 0.5, 0.7]
+    kmax = 3 if opts.get("tier") != "thorough" else 4
+    zsets = [()] + [c for k in range(1, kmax + 1) for c in itertools.combinations_with_replacement(grid, k)]
+    viol, evals, nontrivial, samples = [], 0, 0, []
+    tmp = tempfile.mkdtemp(prefix="c10bounded")
+    try:
+        for closed in CLOSED:
+            binning = Binning(e, closed=closed)
+            for has_w in (False, True):
+                for n_case, zs in enumerate(zsets):
+                    z = np.array(zs, dtype=float)
+                    w = 1.0 + np.arange(len(z)) * 0.5
+                    exp_n = np.array([_spec_mask(z, e[b], e[b + 1], closed).sum() for b in range(3)])
+                    exp_w = np.array([(w[_spec_mask(z, e[b], e[b + 1], closed)].sum() if has_w else
+                                       _spec_mask(z, e[b], e[b + 1], closed).sum()) for b in range(3)], dtype=float)
+                    evals += 1
+                    if len(z) and (np.isin(z, e).any() or (z < e[0]).any() or (z > e[-1]).any() or (exp_n == 0).any()):
+                        nontrivial += 1
+                    case = dict(closed=closed, has_weights=has_w, z=list(zs))
+                    try:
+                        got = red._redshift_histogram(SimpleNamespace(redshifts=z, weights=w, has_weights=has_w), binning)
+                        ok = got.shape == exp_w.shape and np.array_equal(got, exp_w)
+                        obs = got.tolist()
+                    except Exception as ex:  # noqa: BLE001
+                        ok, obs = False, repr(ex)
+                    if not ok and len(viol) < 5:
+                        viol.append(dict(id="bounded:_redshift_histogram", case=case, observed=obs, expected=exp_w.tolist()))
+                    # build_trees on a real patch directory (every 3rd case in the quick tier to stay fast)
+                    if opts.get("tier") != "thorough" and n_case % 3 and len(zs) > 1:
+                        continue
+                    d = f"{tmp}/p{evals}"
+                    try:
+                        n = len(z)
+                        info, chunk = DataChunk.create(np.linspace(0.1, 0.2, n), np.linspace(-0.1, 0.1, n),
+                                                       weights=w if has_w else None, redshifts=z, degrees=False)
+                        pw = patchmod.PatchWriter(d, chunk_info=info, buffersize=-1)
+                        pw.process_chunk(chunk)
+                        pw.close()
+                        patch = patchmod.Patch.__new__(patchmod.Patch)
+                        patch.cache_path = patchmod.Path(d)
+                        patch._chunk_info = info
+                        res = trees.build_trees(patch, binning, leafsize=16)
+                        got_n = [t.num_records for t in res]
+                        got_w = [t.sum_weights for t in res]
+                        ok = len(res) == 3 and got_n == exp_n.tolist() and np.allclose(got_w, exp_w) and \
+                            all((t.weights is not None) == has_w for t in res)
+                        obs = dict(num_records=got_n, sum_weights=got_w)
+                    except Exception as ex:  # noqa: BLE001
+                        ok, obs = False, repr(ex)
+                    finally:
+                        shutil.rmtree(d, ignore_errors=True)
+                    evals += 1
+                    if not ok and len(viol) < 5:
+                        viol.append(dict(id="bounded:build_trees", case=case, observed=obs,
+                                         expected=dict(num_records=exp_n.tolist(), sum_weights=exp_w.tolist())))
+                    if len(samples) < 3 and len(zs) == 2:
+                        samples.append(dict(case=case, trees=obs))
+    finally:
+        shutil.rmtree(tmp, ignore_errors=True)
+    return dict(kind="bounded", bound=f"edges {e.tolist()}, redshift multisets of size <= {kmax} from the grid {grid} (contains "
+                "every edge, values below/above the binning), both closed sides, with/without weights",
+                evaluations=evals, distinct_nontrivial=nontrivial, violations=viol, samples=samples,
+                wall_s=round(time.time() - t0, 2),
+                note="run-time evaluation of the same rule on the real functions; labelled bounded, not counted as proved")
